@@ -643,7 +643,7 @@ def reaching_init(fn, name, pos):
     return None
 
 
-def precedes_on_all_paths(fn, a_pred, b_pos, reset_pred=None, edge_pred=None):
+def precedes_on_all_paths(fn, a_pred, b_pos, reset_pred=None, edge_pred=None, eh=True):
     """Must some event satisfying a_pred occur before position b_pos on every path from entry?
     (forward must-analysis with a boolean state; reset_pred events clear it)."""
     def tr(st, ev, pos):
@@ -656,7 +656,7 @@ def precedes_on_all_paths(fn, a_pred, b_pos, reset_pred=None, edge_pred=None):
     if edge_pred:
         def er(st, blk, raw):
             return True if edge_pred(blk, raw) else st
-    before, _, _ = forward(fn, False, tr, None, lambda a, b: a and b, eh=True, edge_raw=er)
+    before, _, _ = forward(fn, False, tr, None, lambda a, b: a and b, eh=eh, edge_raw=er)
     return before.get(b_pos)
 
 
